@@ -288,28 +288,7 @@ func runC01(w *World, r *Report) {
 	}
 
 	// ---- 2b. the checkpoint a validation reads and the DAG it walks are switched atomically
-	r.rule("checkpoint-prune-atomic", "truncate writes the funds checkpoint and prunes the checkpointed vertices without ever releasing the exclusive ledger lock in between (otherwise a validation in the window counts checkpointed receipts twice)", 3)
-	if f := w.fx(r, "accountant", "AccountingBook", "truncate"); f != nil {
-		li := ComputeLocks(w, acctScope)
-		saves := f.calls(cn("accountant", "*fundsMemMap", "saveToStorage"))
-		dels := f.calls(nDeleteVertex)
-		for _, c := range append(append([]ssa.CallInstruction{}, saves...), dels...) {
-			held := li.At(c)
-			r.check(held.Has(abMux, "W"), "checkpoint-prune-atomic", "truncate/"+shortCallee(c), lineOf(w, c), "runs under the exclusive ledger lock", "lockset "+held.String())
-		}
-		for _, sv := range saves {
-			unlocks := 0
-			walkFrom(sv, nil, nil, func(in ssa.Instruction) bool {
-				if c, ok := in.(*ssa.Call); ok { // deferred unlocks run at return: not in between
-					if op, _, id, ok := lockOp(c); ok && op == "unlock" && id == abMux {
-						unlocks++
-					}
-				}
-				return false
-			})
-			r.check(unlocks == 0, "checkpoint-prune-atomic", "truncate/no-unlock-after-checkpoint", lineOf(w, sv), "no unlock of the ledger lock between the checkpoint write and the end of the truncation", fmt.Sprintf("%d unlock calls reachable after the checkpoint write", unlocks))
-		}
-	}
+	checkpointPruneAtomic(w, r)
 
 	// ---- 3. validateLeaf is a funds check
 	vl := w.fx(r, "accountant", "AccountingBook", "validateLeaf")
@@ -572,4 +551,33 @@ func describeVertexSource(v ssa.Value) string {
 		return pathOf(o)
 	}
 	return pathOf(v)
+}
+
+// checkpointPruneAtomic (shared by C01, C06): truncate writes the funds checkpoint and prunes the
+// checkpointed vertices without ever releasing the exclusive ledger lock in between.
+func checkpointPruneAtomic(w *World, r *Report) {
+	r.rule("checkpoint-prune-atomic", "truncate writes the funds checkpoint and prunes the checkpointed vertices without ever releasing the exclusive ledger lock in between (otherwise a validation or balance query in the window counts checkpointed receipts twice)", 3)
+	f := w.fx(r, "accountant", "AccountingBook", "truncate")
+	if f == nil {
+		return
+	}
+	li := ComputeLocks(w, acctScope)
+	saves := f.calls(cn("accountant", "*fundsMemMap", "saveToStorage"))
+	dels := f.calls(nDeleteVertex)
+	for _, c := range append(append([]ssa.CallInstruction{}, saves...), dels...) {
+		held := li.At(c)
+		r.check(held.Has(abMux, "W"), "checkpoint-prune-atomic", "truncate/"+shortCallee(c), lineOf(w, c), "runs under the exclusive ledger lock", "lockset "+held.String())
+	}
+	for _, sv := range saves {
+		unlocks := 0
+		walkFrom(sv, nil, nil, func(in ssa.Instruction) bool {
+			if c, ok := in.(*ssa.Call); ok { // deferred unlocks run at return: not in between
+				if op, _, id, ok := lockOp(c); ok && op == "unlock" && id == abMux {
+					unlocks++
+				}
+			}
+			return false
+		})
+		r.check(unlocks == 0, "checkpoint-prune-atomic", "truncate/no-unlock-after-checkpoint", lineOf(w, sv), "no unlock of the ledger lock between the checkpoint write and the end of the truncation", fmt.Sprintf("%d unlock calls reachable after the checkpoint write", unlocks))
+	}
 }
